@@ -38,6 +38,7 @@ BoolTrue(s) == s \in {"true", "1", "t"}
 \* parseGroupString: <<ok, name, flatten, soft>>
 GroupParse(g) ==
   CASE g = "g"              -> [ok |-> TRUE,  name |-> "g", flatten |-> FALSE, soft |-> FALSE]
+    [] g = "g "             -> [ok |-> TRUE,  name |-> "g ", flatten |-> FALSE, soft |-> FALSE]   \* names are exact
     [] g = "h"              -> [ok |-> TRUE,  name |-> "h", flatten |-> FALSE, soft |-> FALSE]
     [] g = "g,flatten"      -> [ok |-> TRUE,  name |-> "g", flatten |-> TRUE,  soft |-> FALSE]
     [] g = "g,soft"         -> [ok |-> TRUE,  name |-> "g", flatten |-> FALSE, soft |-> TRUE]
@@ -96,7 +97,7 @@ ConcatOK(rs, j) ==
 \* a parameter item [k, ty, fs, iu]
 ParamItem(it) ==
   CASE it.k = "plain" -> ParamOfType(it.ty)
-    [] it.k = "in" ->
+    [] it.k \in {"in", "inl"} ->      \* "inl": the dig.In embed is the LAST field of the struct
          IF ~BoolOK(it.iu) THEN Bad
          ELSE LET keep == SelectSeq(it.fs, LAMBDA f : f.x \/ ~BoolTrue(it.iu))
               IN  ConcatOK([j \in 1..Len(keep) |-> ParamField(keep[j])], 1)
@@ -220,7 +221,7 @@ FieldTypesP == {"T0", "sT0", "IN1", "OUT1", "pIN1", "err", "int", "IN2"}
 FieldTypesR == {"T0", "sT0", "OUT1", "IN1", "pOUT1", "err", "NS", "ssT0", "erS", "OUT2"}
 NamesT  == {"", "n"}
 OptT    == {"", "true", "false", "yes"}
-GroupT  == {"", "g", "g,flatten", "g,soft", "g,bogus", ",flatten", "g,flatten,soft"}
+GroupT  == {"", "g", "g ", "g,flatten", "g,soft", "g,bogus", ",flatten", "g,flatten,soft"}
 
 FieldsP == {Fld(x, t, n, op, g) : x \in BOOLEAN, t \in FieldTypesP, n \in NamesT, op \in OptT, g \in GroupT}
 FieldsR == {Fld(x, t, n, op, g) : x \in BOOLEAN, t \in FieldTypesR, n \in NamesT, op \in OptT, g \in GroupT}
@@ -239,6 +240,9 @@ ParamItems ==
   \cup {Item("in", "", <<f>>, iu) : f \in FieldsP, iu \in {"", "true", "maybe"}}
   \cup {Item("in", "", <<f, g>>, iu) : f \in FieldsP2, g \in FieldsP2, iu \in {"", "true"}}
   \cup {Item("in", "", <<>>, "")}
+  \cup {Item("inl", "", <<f>>, iu) : f \in {Fld(FALSE, "T0", "", "", ""), Fld(TRUE, "T0", "n", "true", ""),
+                                             Fld(TRUE, "sT0", "", "", "g,soft")}, iu \in {"", "true"}}
+  \cup {Item("inl", "", <<Fld(FALSE, "T1", "", "", ""), Fld(TRUE, "T0", "", "", "")>>, iu) : iu \in {"", "true"}}
 
 ResultItems ==
   {Plain(t) : t \in {"T0", "I0", "sT0", "NS", "int", "IN1", "pIN1", "OUT1", "pOUT1", "EPI", "EPO", "INOUT",
@@ -273,11 +277,13 @@ CasesLoc     == {[s |-> Fn(ps, FALSE, <<r>>), o |-> [NoOpts EXCEPT !.loc = l, !.
                     ps \in {<<>>, <<Plain("T5")>>, <<Plain("T1")>>},
                     r \in {Plain("T0"), Plain("sT0"), Item("out", "", <<Fld(TRUE, "T0", "", "", "g")>>, "")},
                     l \in {"", "pc0", "pc1", "real"}, c \in BOOLEAN}
+\* a function whose only parameter is the variadic one
+CasesVariadic == {[s |-> Fn(<<>>, TRUE, <<r>>), o |-> NoOpts] : r \in {Plain("T7"), Plain("erS"), Item("out", "", <<Fld(TRUE, "T0", "", "", "g")>>, "")}}
 CasesNonFunc == {[s |-> NonFunc(k), o |-> NoOpts] : k \in {"nil", "int", "struct", "ptrstruct", "nilfunc"}}
                 \cup {[s |-> Fn(<<>>, FALSE, <<>>), o |-> NoOpts], [s |-> Fn(<<>>, FALSE, <<Plain("err")>>), o |-> NoOpts]}
 
 AllCases == CasesParams \cup CasesParams2 \cup CasesResults \cup CasesResults2 \cup CasesOpts \cup CasesNonFunc
-            \cup CasesLoc
+            \cup CasesLoc \cup CasesVariadic
 
 -----------------------------------------------------------------------------
 (* Enumeration as a trivial state machine: one initial state per case *)
